@@ -187,6 +187,7 @@ inductive Obj where
   | ns (kv : List (Nat × Val))     -- Namespace: attribute name (code) ↦ value
   | cell (v : Val)                 -- Value
   | ctr (n : Int) (log : Nat)      -- custom class Counter: `n`, and the address of its `log` list
+  | hub (a b : Nat)                -- custom class Hub: owns two store objects (at `a`, `b`) it hands out with managed()
   deriving Repr, DecidableEq
 
 abbrev Heap := Nat → Option Obj
@@ -195,6 +196,7 @@ inductive POp where
   -- list
   | append (v : Val) | extend (vs : List Val) | insert (k : Int) (v : Val) | popLast | pop (k : Int)
   | getitem (k : Int) | setitem (k : Int) (v : Val) | delitem (k : Int) | len | reverse | slice
+  | imul (k : Int) | iadd (vs : List Val)      -- `x *= k`, `x += vs`: change in place, the result is the object itself
   -- dict
   | dset (k v : Val) | dget (k : Val) | ddel (k : Val) | dpop (k : Val) | dpopd (k d : Val) | dgetd (k d : Val)
   | dcontains (k : Val) | dcopy | dclear | dsetdefault (k v : Val) | dpopitem
@@ -205,6 +207,7 @@ inductive POp where
   -- Counter
   | add (k : Int) | cget | fail (tag : Nat) (cls : ErrCls) | history | snapshot | echo (vs : List Val)
   | poke (target : Val) (v : Val) | pokePop (target : Val)
+  | view0 | view1                              -- Hub: `managed(self._mem)` / `managed(self._disk)` (same typeid, different classes)
   | relayFail (target : Val) (tag : Nat) (cls : ErrCls)   -- calls `fail` of another hosted Counter through a proxy, inside the server
   deriving Repr, DecidableEq
 
@@ -254,6 +257,8 @@ def listOp (h : Heap) (a : Nat) (vs : List Val) : POp → Heap × Res
   | .len => (h, .val (.int vs.length))
   | .reverse => (upd h a (.lst vs.reverse), .val .none)
   | .slice => (h, .vals vs)
+  | .imul k => (upd h a (.lst ((List.replicate k.toNat vs).flatten)), .alias a)
+  | .iadd ws => (upd h a (.lst (vs ++ ws)), .alias a)
   | _ => (h, .raised .attr)
 
 def dictOp (h : Heap) (a : Nat) (kv : List (Val × Val)) : POp → Heap × Res
@@ -334,6 +339,10 @@ def pyCall (h : Heap) (a : Nat) (op : POp) : Heap × Res :=
     | .vset w => (upd h a (.cell w), .val .none)
     | _ => (h, .raised .attr)
   | some (.ctr n log) => ctrOp h a n log op
+  | some (.hub x y) => match op with
+    | .view0 => (h, .alias x)
+    | .view1 => (h, .alias y)
+    | _ => (h, .raised .attr)
   | none => (h, .raised .attr)
 
 def pySem : Sem Heap POp := ⟨pyCall⟩
